@@ -11,19 +11,32 @@ package discov
 //@   loop 1 invariant -1 <= rangeindex && len(remain) <= rangeindex + 1 && remain.arr == keys.arr && remain.off == keys.off && remain.cap == keys.cap && rangeindex <= len(keys)
 //@   loop 1 iteration-ensures [filter] (at_head(keys[rangeindex + 1]) != key) == (len(remain) == at_head(len(remain)) + 1) && (at_head(keys[rangeindex + 1]) == key) == (len(remain) == at_head(len(remain)))
 //@   loop 1 iteration-ensures [kept-in-order] at_head(keys[rangeindex + 1]) != key ==> remain[at_head(len(remain))] == at_head(keys[rangeindex + 1])
+// the only key of its value: the value disappears altogether
+//@   loop 1 invariant rangeindex < len(keys) || len(keys) == 0
+//@   loop 1 invariant len(keys) == old(len(c.values[c.mapping[key]])) && forall(i, rangeindex + 1, len(keys), keys[i] == old(c.values[c.mapping[key]][i]))
+//@   loop 1 invariant forall(i, 0, rangeindex + 1, old(c.values[c.mapping[key]][i]) == key) ==> len(remain) == 0
+//@   ensures [sole-key-removes-the-value] old(has(c.mapping, key)) && old(len(c.values[c.mapping[key]])) == 1 && old(c.values[c.mapping[key]][0]) == key ==> !has(c.values, old(c.mapping[key]))
+//@   ensures [other-values-untouched] forallk(s, string, old(has(c.mapping, key)) && s != old(c.mapping[key]) ==> has(c.values, s) == old(has(c.values, s)))
+//@   ensures [other-mappings-untouched] forallk(s, string, s != key ==> has(c.mapping, s) == old(has(c.mapping, s)) && (has(c.mapping, s) ==> c.mapping[s] == old(c.mapping[s])))
 //@   ensures [unmapped] !has(c.mapping, key)
 //@   ensures [unknown-key-noop] !old(has(c.mapping, key)) ==> forallk(s, string, has(c.values, s) == old(has(c.values, s)))
+//@   modifies mapof(c.mapping), mapof(c.values), elemsOf(string), cells(string)
 
-// addKv: the key maps to the value and is listed under it; in exclusive mode earlier keys of the value are removed first.
+// Exclusive mode keeps every value under at most one key, consistently with the reverse mapping.
+//@ macro exclOK(c) = c != nil && c.mapping != nil && c.values != nil && forallk(v, string, has(c.values, v) ==> len(c.values[v]) == 1 && has(c.mapping, c.values[v][0]) && c.mapping[c.values[v][0]] == v)
+// addKv: the key maps to the value and is listed under it; in exclusive mode the earlier key of the value is
+// removed first and the value is then retained ONLY under the new key (the list is rebuilt from the container's
+// current state, not from the slice read before the eviction).
 //@ func (*container).addKv
 //@   prop C15
-//@   opaque doRemoveKey, Set
-//@   requires c != nil && c.mapping != nil && c.values != nil
+//@   opaque Set
+//@   requires c != nil && c.mapping != nil && c.values != nil && (c.exclusive ==> exclOK(c))
 //@   ensures [mapped] has(c.mapping, key) && c.mapping[key] == val
 //@   ensures [listed] has(c.values, val) && len(c.values[val]) >= 1 && c.values[val][len(c.values[val]) - 1] == key
-//@   loop 1 invariant -1 <= rangeindex && rangeindex <= len(keys)
-//@   loop 1 iteration-ensures [exclusive-evicts-each] calls(c.doRemoveKey, at_head(keys[rangeindex + 1])) == 1
-//@   ensures [shared-keeps] !c.exclusive ==> calls(doRemoveKey) == 0
+//@   loop 1 invariant -1 <= rangeindex && (rangeindex < len(keys) || len(keys) == 0) && len(keys) == 1 && (rangeindex >= 0 ==> !has(c.values, val)) && (rangeindex < 0 ==> keys[0] == old(c.values[val][0]) && has(c.mapping, keys[0]) && c.mapping[keys[0]] == val && has(c.values, val) && len(c.values[val]) == 1 && c.values[val][0] == keys[0])
+//@   ensures [exclusive-only-under-the-new-key] c.exclusive ==> len(c.values[val]) == 1 && c.values[val][0] == key
+//@   ensures [shared-appends] !c.exclusive && old(has(c.values, val)) ==> len(c.values[val]) == old(len(c.values[val])) + 1
+//@   ensures [reports-earlier-keys] result1 == (old(has(c.values, val)) && old(len(c.values[val])) > 0)
 
 // ---------------- the rest of the subscriber's container (C15) ----------------
 // An added key is recorded and then every change listener runs; a deleted key likewise.
